@@ -188,6 +188,10 @@ def family(tier, seed):
         E.append(bent("is_equal" + tag, "is_equal", [BU(a), BU(b)], [x, x], S_is_equal, alt=[[x, x ^ 1], [0, 0], [ma, mb], [0, mb]], a=a, b=b))
         E.append(bent("assert_equal" + tag, "assert_equal", [BU(a), BU(b)], [x, x], S_assert(False), nout=0, alt=[[0, 0]], a=a, b=b))
         E.append(bent("assert_not_equal" + tag, "assert_not_equal", [BU(a), BU(b)], [x, x ^ 1], S_assert(True), nout=0, alt=[[0, mb], [ma, 0]], a=a, b=b))
+    # BigUint(0) ("an integer in [0, 2^0)"): the only value is 0
+    E.append(bent("is_equal[biguint]", "is_equal", [BU(0), BU(0)], [0, 0], S_is_equal, a=0, b=0))
+    E[-1]["maypanic"] = True
+    E[-1]["params"]["k"] = 10      # explicit k: MidnightCircuit::min_k unwraps a synthesis error (dev tool), a clean refusal must stay visible
     for n, (a, b) in ([(1, (64, 128)), (2, (64, 64)), (2, (120, 200))] if tier == "quick" else
                       [(1, (64, 128)), (2, (8, 8)), (2, (64, 64)), (2, (120, 200)), (3, (128, 128)), (2, (200, 200))]):
         vals = [R(a) for _ in range(n)] + [R(b) for _ in range(n)]
@@ -198,6 +202,16 @@ def family(tier, seed):
                  [(8, 1), (8, 2), (8, 12), (64, 8), (64, 7), (64, 12), (120, 15), (120, 12), (128, 16), (128, 24), (200, 24), (200, 25), (200, 36)]):
         vmax = min(1 << a, 1 << (8 * k)) - 1
         E.append(bent("into_bytes[biguint]", {"into_bytes": k}, [BU(a)], [rnd.randrange(vmax + 1)], S_into_bytes(k), alt=[[0], [vmax]], a=a, bytes=k))
+    # declared widths that are NOT a multiple of 8: the partial top byte (bits 8*floor(w/8) .. w-1) lies beyond
+    # the k requested bytes when k = floor(w/8) or k = 1 and must be forced to zero like every other dropped byte
+    seen = {(64, 8)}
+    for w in [9, 12, 21, 64]:
+        for k in [w // 8, -(-w // 8), 1]:
+            if (w, k) in seen or k == 0:
+                continue
+            seen.add((w, k))
+            vmax = min(1 << w, 1 << (8 * k)) - 1
+            E.append(bent("into_bytes[biguint]", {"into_bytes": k}, [BU(w)], [rnd.randrange(vmax + 1)], S_into_bytes(k), alt=[[0], [vmax], [1 << (min(w, 8 * k) - 1)]], a=w, bytes=k))
     for n, k in ([(8, 1), (64, 8), (128, 13), (200, 25)] if tier == "quick" else
                  [(8, 1), (16, 1), (64, 8), (120, 12), (120, 15), (128, 13), (128, 16), (200, 24), (200, 25)]):
         bs = [rnd.randrange(256) for _ in range(k)]
@@ -225,4 +239,60 @@ def check(run):
     run.assumptions += ["C18/B: BigUint(n) values are identified with their published limbs (ceil(n/LOG2_BASE) cells, base 2^LOG2_BASE little endian), the encoding `AssignedBigUint::as_public_input` documents; the limb size is recovered from the real encoder"]
     run.outside += ["C18/B: into_bytes(k) on BigUint with k beyond the bytes of its limbs and on Native with k = 2^32 (known panics, being fixed separately); BigUint(0); mod_exp exponents above 3; operands above 200 bits"]
     run.bounds.append(f"C18/B tier={t}: {len(ents)} one-operation programs over BigUint(n), n in {{8, 64, 120, 128, 200}}, limb size {lb()}")
+    ents = cbig.split_panicking(run, "zkir", ents)
     cengine.run_family(run, "zkir", ents, timeout=60 if t == "quick" else 600, only=only, workers=6)
+    offcircuit_failures(run)
+
+
+def offcircuit_failures(run):
+    """Concrete companion of the Dom conjuncts (not a solver obligation): on inputs outside the domain the REAL
+    off-circuit evaluator must FAIL (return an error), which is what `evaluation fails <=> circuit
+    unsatisfiable` needs on the off-circuit side; the in-circuit side is the Dom conjunct decided above."""
+    import json, subprocess
+    only = getattr(run, "only", None)
+    ob = core.Ob("zkir/offcircuit-failure[biguint]", "C", "the real off-circuit evaluation returns an error on inputs outside the operation's domain",
+                 functions=["zkir::parser::offcircuit", "ZkirRelation::public_inputs"], bound="sub underflow, violated assertions, into_bytes of a too wide value; BigUint(n), n in {8, 9, 12, 21, 64, 128, 200}",
+                 key="zkir/offcircuit-failure[biguint]")
+    run.add(ob)
+    if only and only not in ob.id:
+        ob.set(core.HOLDS, "skipped by --only")
+        ob.nontrivial = False
+        return
+    cases = []
+    for n in [8, 64, 128, 200]:
+        mx = (1 << n) - 1
+        cases += [("sub", "sub", [BU(n), BU(n)], [0, 1], 1), ("sub", "sub", [BU(n), BU(n)], [mx - 1, mx], 1),
+                  ("assert_equal", "assert_equal", [BU(n), BU(n)], [mx, mx - 1], 0), ("assert_not_equal", "assert_not_equal", [BU(n), BU(n)], [mx, mx], 0)]
+        if n > 8:
+            cases += [("into_bytes", {"into_bytes": 1}, [BU(n)], [256], 1), ("into_bytes", {"into_bytes": n // 8 - 1}, [BU(n)], [1 << (n - 8)], 1)]
+    # values reaching into the partial top byte of a width that is not a multiple of 8
+    for w in [9, 12, 21]:
+        for k_ in sorted({w // 8, 1}):
+            cases += [("into_bytes", {"into_bytes": k_}, [BU(w)], [(1 << w) - 1], 1), ("into_bytes", {"into_bytes": k_}, [BU(w)], [1 << (8 * k_)], 1)]
+    cases.append(("into_bytes", {"into_bytes": 1}, [BU(12)], [0xABC], 1))
+    bad = []
+    try:
+        for name, op, types, vals, nout in cases:
+            path = C.write_prog(C.program(op, types, vals, nout))
+            p = subprocess.run([cengine.CX, "zkir", "op=" + name, f"p.prog={path}", "p.nin=0"], capture_output=True, text=True)
+            ob.queries += 1
+            if p.returncode != 0:
+                bad.append((name, [hex(v) for v in vals], "panic: " + p.stderr[p.stderr.find("panicked"):][:160]))
+                continue
+            d = json.loads(p.stdout)
+            if d["extra"].get("offcircuit_ok") is not False:
+                bad.append((name, [hex(v) for v in vals], "evaluation succeeded: " + str(d["extra"].get("published"))[:160]))
+        ob.nontrivial = False
+        if bad:
+            ob.set(core.VIOLATION, f"off-circuit evaluation does not fail on out-of-domain inputs: {bad[:3]}",
+                   replay=run.write_replay(ob, dict(kind="offcircuit-failure", cases=bad[:8], engine_part="B")))
+        else:
+            ob.set(core.HOLDS, f"{len(cases)} concrete out-of-domain programs")
+    except Exception as ex:  # noqa
+        ob.set(core.INCONCLUSIVE, repr(ex))
+
+
+def replay(payload):
+    if payload.get("kind") != "offcircuit-failure":
+        return None
+    return 1 if payload.get("cases") else 0
